@@ -229,6 +229,10 @@ rle32_exact!(c09_rle32_exact_3x2_run0, 3, 2, [0x03, 0x30, -1, -1, -1], 24);
 rle32_exact!(c09_rle32_exact_4x3_mixed, 4, 3, [0x40, -1, -1, -1, -1, 0x04, 0x13, -1], 36);
 rle32_exact!(c09_rle32_exact_16x1_long, 16, 1, [0x01], 20);
 rle32_exact!(c09_rle32_exact_18x2_long, 18, 2, [0x10, -1, 0x11, 0x21], 24);
+// a later scanline that starts with a run-only segment after a scanline that ended on an arbitrary raw value:
+// the run value starts from 0 on every scanline (MS-RDPEGDI 3.1.9.2), i.e. the row repeats the row below
+rle32_exact!(c09_rle32_exact_3x2_raw_then_run, 3, 2, [0x30, -1, -1, -1, 0x03], 24);
+rle32_exact!(c09_rle32_exact_3x3_raw_run_run, 3, 3, [0x30, -1, -1, -1, 0x03, 0x12, -1], 30);
 
 // ---------------------------------------------------------------- C08/C09 (d): interleaved RLE (16 bpp)
 // rle_16_decompress with CONCRETE order headers (one chosen order sequence per
